@@ -38,6 +38,11 @@ pxgstrf_relax_snode(
     int_t relax = superlumt_options->relax; /* maximum no of columns allowed 
 					     in a relaxed s-node */
     
+    /* A relaxed supernode is a supernode: it must not be wider than the
+       maximum supernode size sp_ienv(3), which the numerical kernels
+       (p?gstrf_bmod2D*) use to lay out their work arrays. */
+    if ( relax > sp_ienv(3) ) relax = sp_ienv(3);
+
     desc = intCalloc(n+1);
 
     /* Compute the number of descendants of each node in the etree */
